@@ -8,6 +8,7 @@ import (
 	"runtime"
 	"strings"
 	"sync"
+	"sync/atomic"
 
 	"github.com/hugelgupf/p9/p9"
 
@@ -418,5 +419,138 @@ func c10SendFailsLateReply(c *ev.Ctx) {
 		c.Count("send_fails_late_reply_rounds", 1)
 		fs.Shutdown()
 		runtime.KeepAlive(cc)
+	}
+}
+
+// breakConn is a transport that can be made to hold every Write and then fail
+// it, while the other direction fails too: a connection that breaks with
+// callers in both halves of the client.
+type breakConn struct {
+	net.Conn
+	mu    sync.Mutex
+	hold  chan struct{} // non-nil: Writes wait for it to be closed, then fail
+	nheld int32
+}
+
+func (b *breakConn) Write(p []byte) (int, error) {
+	b.mu.Lock()
+	h := b.hold
+	b.mu.Unlock()
+	if h != nil {
+		atomic.AddInt32(&b.nheld, 1)
+		<-h
+		return 0, errors.New("injected: connection reset")
+	}
+	return b.Conn.Write(p)
+}
+
+// (9) a connection breaks under load - one caller is receiving, hundreds are
+// registered and in or behind the send - and all of them fail, as they must.
+// What they leave behind must not leak: the response objects are recycled
+// through a process-wide pool, and a SECOND Client, on a healthy connection,
+// afterwards makes its calls as if nothing had happened.
+func c10BreakUnderLoad(c *ev.Ctx) {
+	defer runtime.GOMAXPROCS(runtime.GOMAXPROCS(8))
+	for round := 0; round < c.Sz(6, 60); round++ {
+		if !c.Mine(round + 2) {
+			continue
+		}
+		c.Begin(fmt.Sprintf("C10 break under load round %d", round))
+		fs := fakesrv.New(nil)
+		auto := fakesrv.Auto(0, 7)
+		fs.Handler = auto
+		bc := &breakConn{Conn: fs.C}
+		var cl *p9.Client
+		var root p9.File
+		var files []p9.File
+		var fids []uint64
+		var err error
+		ok := ev.Watch(wd, func() {
+			if cl, err = p9.NewClient(bc, p9.WithMessageSize(1<<16)); err != nil {
+				return
+			}
+			if root, err = cl.Attach(""); err != nil {
+				return
+			}
+			for i := 0; i < 2; i++ {
+				var f p9.File
+				if _, f, err = root.Walk([]string{fmt.Sprintf("f%d", i)}); err != nil {
+					return
+				}
+				files = append(files, f)
+				fids = append(fids, lastNewfid(fs))
+			}
+		})
+		if !ok || err != nil {
+			c.Inconclusive(fmt.Sprintf("C10 break-under-load setup: %v", err))
+			fs.Shutdown()
+			continue
+		}
+		cc := &c10Client{fs: fs, cl: cl, root: root, files: files, fids: fids}
+		fs.Handler = func(s *fakesrv.Server, rq *fakesrv.Req) {} // nothing is answered any more
+		const N = 300
+		var wg sync.WaitGroup
+		results := make([]string, N+1)
+		wg.Add(1)
+		go func() { defer wg.Done(); results[N] = cc.do(0, c10call{kind: 'G'}) }() // the receiver
+		n0 := fs.NReqs()
+		fs.WaitReqs(n0 + 1)
+		bc.mu.Lock()
+		bc.hold = make(chan struct{})
+		bc.mu.Unlock()
+		for g := 0; g < N; g++ {
+			wg.Add(1)
+			go func(g int) { defer wg.Done(); results[g] = cc.do(1, c10call{kind: 'G', off: uint64(g)}) }(g)
+		}
+		quiesce.WaitUntil(func() bool { return false }, wd) // all of them registered, one in Write, the rest behind it
+		fs.S.Close()                                        // the receiving direction fails ...
+		close(bc.hold)                                      // ... and so does every send
+		done := make(chan struct{})
+		go func() { wg.Wait(); close(done) }()
+		if o, d := quiesce.Await(done, 2*wd); o != quiesce.CondMet {
+			hang(c, o, d, "C10:break-under-load:call-hangs-on-the-broken-connection", nil)
+			fs.Shutdown()
+			continue
+		}
+		for g, s := range results {
+			if !strings.HasPrefix(s, "error:") {
+				c.Violation("C10:break-under-load:call-does-not-fail-on-the-broken-connection", map[string]any{"call": g, "result": s})
+				break
+			}
+		}
+		fs.Shutdown()
+		// the second, healthy client
+		c2 := c10Setup(c, 3, fakesrv.Auto(0, 7))
+		if c2 == nil {
+			continue
+		}
+		bad := make([]string, 3)
+		var wg2 sync.WaitGroup
+		for g := 0; g < 3; g++ {
+			wg2.Add(1)
+			go func(g int) {
+				defer wg2.Done()
+				for i := 0; i < 200 && bad[g] == ""; i++ {
+					bad[g] = c2.do(g, c10call{kind: []byte{'G', 'R', 'D'}[i%3], off: uint64(i), n: 100 + i})
+				}
+			}(g)
+		}
+		done2 := make(chan struct{})
+		go func() { wg2.Wait(); close(done2) }()
+		if o, d := quiesce.Await(done2, 2*wd); o != quiesce.CondMet {
+			hang(c, o, d, "C10:break-under-load:call-hangs-on-a-healthy-connection-afterwards", nil)
+		} else {
+			for g, s := range bad {
+				if s != "" {
+					c.Violation("C10:break-under-load:another-client's-call-affected-afterwards", map[string]any{"goroutine": g, "what": s})
+					break
+				}
+			}
+		}
+		c.Case("break-under-load", true)
+		c.Count("break_under_load_rounds", 1)
+		c2.fs.Shutdown()
+		runtime.KeepAlive(cc)
+		runtime.KeepAlive(c2)
 	}
 }
